@@ -439,8 +439,21 @@ def run(chk):
     n = 4000 if chk.thorough else 600
     cases, rendered, opmix = [], [], {}
     n_viol = 0
+    # corpus (runs first): look-alike units - two empty sequences with equal labels, two transports with equal labels - side by side in one parent;
+    # navigation and removal go by identity, never by what the units look like
+    corpus = [
+        [('construct', 1, [], 1), ('construct', 2, [], 1), ('newunit', 3, KINDS[1], 2), ('construct', 10, [1, 3, 2], 3), ('remove', 10, 2), ('append', 10, 2),
+         ('reverse', 10), ('pop', 10, 0), ('prepend', 10, 2), ('remove', 10, 1)],
+        [('newunit', 1, KINDS[2], 1), ('newunit', 2, KINDS[2], 1), ('construct', 3, [], 2), ('construct', 4, [], 2), ('construct', 10, [1, 3, 2, 4], 3),
+         ('remove', 10, 4), ('remove', 10, 2), ('insert', 10, 0, 4), ('delitem', 10, -1), ('append', 10, 3), ('reverse', 10)],
+        [('construct', 1, [], 1), ('construct', 2, [], 1), ('construct', 3, [], 1), ('construct', 10, [1, 2, 3], 1), ('remove', 10, 3), ('remove', 10, 2),
+         ('extend', 10, [3, 2]), ('pop', 10, 1), ('flatten', 10)],
+    ]
     for i in range(n):
-        ops = gen_history(rng, rng.randint(3, 40 if not chk.thorough else 80), inadmissible_rate=0.0 if i % 10 else 0.3)
+        if i < len(corpus):
+            ops = corpus[i]
+        else:
+            ops = gen_history(rng, rng.randint(3, 40 if not chk.thorough else 80), inadmissible_rate=0.0 if i % 10 else 0.3)
         results, snaps, viol, W = run_history(ops)
         cases.append(ops)
         rendered.append(render_case(ops, results, snaps))
